@@ -40,8 +40,14 @@ def seg_plan(rnd, case):
     else:
         ends = [i + 1 for i in range(n) if raw[i:i + 1] == b"\n"]
         cuts = sorted(set(max(1, e + rnd.pick([-2, -1, 0, 1])) for e in ends if rnd.int(0, 2)))
+    sequential = rnd.int(0, 3) == 0
     server = []
     for r in case["resps"]:
+        surplus = 0
+        if sequential and rnd.bool() and r["bw"]["wire"] == "raw" and len(r["bw"]["body"]) >= 6 and any(c == "cl" for c in r["cls"]):
+            surplus = rnd.pick([1, 2, 5])
+            r["bw"]["delta"] = -surplus  # the server sends `surplus` bytes more than it announced
+            r.pop("trim", None)
         sraw = http1gen.resp_bytes(r)
         m = len(sraw)
         k = rnd.pick(["none", "none", "bytes", "k", "one"])
@@ -53,8 +59,18 @@ def seg_plan(rnd, case):
             server.append([rnd.int(1, m - 1)])
         else:
             server.append(sorted(set(rnd.int(1, m - 1) for _ in range(rnd.int(2, 5)))))
+        if surplus and rnd.int(0, 3):
+            server[-1] = sorted(set(server[-1] + [m - surplus]))  # a segment boundary right after the announced body
     delay = [rnd.pick([0, 0, 0, 1, 2, 5]) for _ in case["resps"]]
-    return {"client": cuts, "server": server, "kind": kind, "delay": delay}
+    plan = {"client": cuts, "server": server, "kind": kind, "delay": delay}
+    if sequential:
+        # "sequential" mode: the client sends each request only after the previous exchange finished, so bytes a server
+        # sends beyond a complete response always arrive before the next request is forwarded -- their fate must then
+        # not depend on how the server stream is segmented (only the server side is re-segmented in this mode)
+        plan["sequential"] = True
+        plan["kind"] = "sequential"
+        plan["delay"] = [0 for _ in case["resps"]]
+    return plan
 
 
 def build(rnd):
@@ -63,6 +79,14 @@ def build(rnd):
     fix_close(case)
     case["seg"] = seg_plan(rnd, case)
     return case
+
+
+def request_boundaries(case):
+    out, n = [], 0
+    for r in case["reqs"][:-1]:
+        n += len(http1gen.req_bytes(r))
+        out.append(n)
+    return out
 
 
 def fix_close(case):
@@ -79,6 +103,9 @@ def fix_close(case):
         r.pop("trim", None)
         raw = http1gen.resp_bytes(r)
         n = _first_complete(raw, q["method"])
+        if (case.get("seg") or {}).get("sequential") and n is not None:
+            r["close_after"] = False  # surplus bytes after a complete response are kept in sequential mode
+            continue
         if n is None:
             r["close_after"] = True  # close-delimited or truncated: the close is part of the framing
         else:
@@ -127,6 +154,9 @@ def check_case(case, ctx):
     fix_close(case)  # domain normalisation is part of the check, so shrunk/replayed cases stay inside the domain
     whole = dict(case)
     whole["seg"] = None
+    if case["seg"].get("sequential"):
+        case["seg"]["client"] = request_boundaries(case)
+        whole["seg"] = {"client": case["seg"]["client"], "server": [], "delay": [], "kind": "sequential"}
     a = run_http1(whole)
     b = run_http1(case)
     raw = b"".join(http1gen.req_bytes(r) for r in case["reqs"])
